@@ -1,4 +1,5 @@
 import JL.Generated.Fns
+import JL.Lemmas.TieAuto
 import JL.Tie.to_primitive_number
 import JL.Tie.to_string
 /-! tie: `to_primitive`, as translated from the crate's current source, is the model's function - for every input -/
@@ -7,8 +8,6 @@ open JL
 
 /-- the hint is `PrimitiveHint::Number` at every call site (the model's `toPrimitive` has no other mode) -/
 theorem to_primitive (v : Json) : Gen.to_primitive v Rs.PrimitiveHint.Number = JsOp.toPrimitive v := by
-  unfold Gen.to_primitive JsOp.toPrimitive
-  rw [to_primitive_number, to_string]
-  cases JsOp.toPrimitiveNumber v <;> simp [rs]
+  tie_close [Gen.to_primitive, JsOp.toPrimitive, to_primitive_number, to_string] splitting JsOp.toPrimitiveNumber
 
 end JL.Tie
